@@ -108,6 +108,7 @@ class Ctx:
         self.query_log = []   # (query, path, answer) for the view slice
         self.contract = []    # C10 predicates that failed right after a build_file call
         self.mutate = False      # C11: mutate every value that crossed the API after use
+        self.callee_mutates = bool(case.get('callee_mutates'))   # functions edit the arguments they receive, in place
         self.returned = []       # objects returned by functions, to be mutated once the library has them
         self.call_stack = []     # DSL calls in progress: ['bf', rel] / ['sb', name, args_wire, kwargs_wire]
         self.fault_call = None   # the call stack at the moment an injected fault fired
@@ -299,8 +300,8 @@ def run_func(ctx, idx, b, target, arg, kw, is_root=False):
         ctx.inv.append([f['name'], ctx.rel(target) if target is not None else None,
                         wire.enc([arg]), wire.enc(kw)])
     acc = [['v', canon(arg)], ['v', canon(kw)], ['v', canon(ctx.versions.get(f['name']))]]
-    if ctx.mutate and not is_root:
-        scramble(arg); scramble(kw)          # edge: arguments handed to the function
+    if (ctx.mutate or ctx.callee_mutates) and not is_root:
+        scramble(arg); scramble(kw)          # edge: arguments handed to the function (it may do with them what it likes)
     exec_stmts(ctx, f['stmts'], b, target, acc)
     r = f['ret']
     if r == 'acc':
